@@ -97,7 +97,7 @@ Arity(name) ==
 ArityOK(name, k) == k >= Arity(name)[1] /\ (Arity(name)[2] = -1 \/ k <= Arity(name)[2])
 
 \* -------------------------------------------------------------- the state
-Frame(fid, name) == [fid |-> fid, name |-> name, term |-> FALSE, tro |-> FALSE, iters |-> 0]
+Frame(fid, name, src) == [fid |-> fid, name |-> name, term |-> FALSE, tro |-> FALSE, iters |-> 0, src |-> src]
 
 RECURSIVE Chain(_, _, _)
 Chain(fs, i, fid) ==
@@ -132,6 +132,7 @@ InitM(p) ==
     steps   |-> 0,
     polls   |-> 0,
     neid    |-> 0,
+    estk    |-> <<>>,           \* estk[eid] = the call stack copied onto error eid when it was created
     evi     |-> 1,              \* index of the top-level evaluation in progress
     fi      |-> 0,              \* forms of it already started
     probes  |-> <<>>,           \* probe transcript of the current evaluation
@@ -152,8 +153,9 @@ Nest(s) == Cardinality({j \in 1..Len(s.k) : s.k[j].t = "ev"})
 \* env.Errorf / ErrorCondition: stamped with the creating environment's loc and a copy of the stack
 MkErr(s, cond, data, env, panic) ==
   [V("err", s.neid + 1, cond, "", panic, data) EXCEPT !.i = s.envs[env].loc]
+StackCopy(s) == [j \in 1..Len(s.frames) |-> [name |-> s.frames[j].name, src |-> s.frames[j].src]]
 WithErr(s, cond, data, env) ==
-  [s EXCEPT !.neid = @ + 1, !.ctl = Ret(MkErr(s, cond, data, env, FALSE))]
+  [s EXCEPT !.neid = @ + 1, !.estk = Append(@, StackCopy(s)), !.ctl = Ret(MkErr(s, cond, data, env, FALSE))]
 \* errors raised by the interpreter itself carry one data cell: the formatted message (or the
 \* native Go error).  Message texts are opaque to the specification: "#msg" matches any value.
 Msg == <<VStr("#msg")>>
@@ -226,7 +228,9 @@ FinishEval(s, v0) ==
   \* back whatever marker the call produced)
   LET v == IF v0.t \in {"macexp", "mark"} THEN VNil ELSE v0
       endpkg == IF s.savedpkg = "*" THEN s.pkg ELSE s.savedpkg IN
-  LET r == [v |-> v, steps |-> s.steps, probes |-> s.probes, pkg |-> endpkg,
+  LET reg == [p \in DOMAIN s.pkgs \ {"lisp"} |-> [exports |-> s.pkgs[p].exports, names |-> DOMAIN s.pkgs[p].syms \ DOMAIN LispSyms]] IN
+  LET r == [v |-> v, steps |-> s.steps, probes |-> s.probes, pkg |-> endpkg, reg |-> reg,
+            estack |-> IF v.t = "err" /\ v.n >= 1 /\ v.n <= Len(s.estk) THEN s.estk[v.n] ELSE <<>>,
             frames |-> Len(s.frames), conds |-> Len(s.conds), k |-> Len(s.k)] IN
   [s EXCEPT !.results = Append(@, r), !.pkg = endpkg, !.evi = @ + 1, !.fi = 0, !.ctl = [mode |-> "next"], !.k = <<>>]
 NextForm(s) ==
@@ -260,7 +264,7 @@ EvalBody(s, v, env, md, pushed) ==
   ELSE CASE v.t = "sym" ->
               LET r == SymValue(s1, v, env) IN
               IF r.ok THEN done([s1 EXCEPT !.ctl = Ret(NameFun(r.v, v))])
-              ELSE done([s1 EXCEPT !.neid = @ + 1,
+              ELSE done([s1 EXCEPT !.neid = @ + 1, !.estk = Append(@, StackCopy(s1)),
                                   !.ctl = Ret([V("err", s1.neid + 1, "error", "", FALSE, Msg) EXCEPT !.i = v.i])])
          [] v.t = "list" ->
               IF Len(v.c) = 0 THEN done([s1 EXCEPT !.ctl = Ret(VNil)])
@@ -294,7 +298,8 @@ CellStep(s) ==
   IF c.j = 0
   THEN [s EXCEPT !.k = SetTop(@, [c EXCEPT !.j = 1]), !.ctl = Eval(c.e.c[1], c.env)]
   ELSE LET f == c.vals[1] IN
-       IF ~IsFun(f) THEN Fail(LeaveCells(s, c), c.env)       \* first element of expression is not a function
+       IF ~IsFun(f)                                            \* first element of expression is not a function:
+       THEN LET e == Fail(s, c.env) IN [LeaveCells(e, c) EXCEPT !.ctl = e.ctl]   \* created with env.loc as the head's evaluation left it
        ELSE LET kind == FunKind(s, f) IN
             IF kind # "fun"
             THEN \* special function: arguments are passed unevaluated over a fresh array
@@ -312,8 +317,8 @@ Dispatch(s) ==
       npop == IF kind = "fun" /\ s.cfg.tro THEN TerminalFID(s.frames, fid) ELSE 0 IN
   IF s.cfg.maxphys > 0 /\ Len(s.frames) >= s.cfg.maxphys THEN Fail(s, env)
   ELSE IF npop > 0 THEN [s EXCEPT !.ctl = Ret(VMark(npop, fid, f, args))]
-  ELSE [s EXCEPT !.frames = Append(@, [Frame(fid, FrameName(s, f)) EXCEPT !.tro = (kind = "macro")]),
-                 !.k = Append(@, [t |-> "call", kind |-> kind, f |-> f, env |-> env]),
+  ELSE [s EXCEPT !.frames = Append(@, [Frame(fid, FrameName(s, f), s.envs[env].loc) EXCEPT !.tro = (kind = "macro")]),
+                 !.k = Append(@, [t |-> "call", kind |-> kind, f |-> f, env |-> env, site |-> s.envs[env].loc]),
                  !.ctl = [mode |-> "call", f |-> f, args |-> args, env |-> env]]
 
 \* ------------------------------------------------------------------- bind
@@ -372,6 +377,11 @@ PureBuiltin(name, a) ==
     [] OTHER -> bad
 
 PopCall(s) == [s EXCEPT !.frames = Pop(@), !.k = Pop(@)]
+\* stampMacroExpansion: nodes of the expansion that carry no source position take the macro call site
+RECURSIVE Stamp(_, _)
+Stamp(v, site) == IF v.t \in {"list", "quote"} THEN [v EXCEPT !.i = IF @ = 0 THEN site ELSE @, !.c = [j \in 1..Len(v.c) |-> Stamp(v.c[j], site)]]
+                  ELSE IF v.t \in {"int", "str", "sym"} THEN [v EXCEPT !.i = IF @ = 0 THEN site ELSE @]
+                  ELSE v
 
 \* set: PutGlobal in the current package, records the function name for stack traces
 SetGlobal(s, sym, v) ==
@@ -772,7 +782,7 @@ DoReturn(s) ==
     [] c.t = "call" ->
          IF c.kind = "macro"
          THEN IF IsErr(v) THEN PopCall(s)
-              ELSE [PopCall(s) EXCEPT !.ctl = Ret(VMacExp([v EXCEPT !.q = FALSE]))]     \* shallowUnquote
+              ELSE [PopCall(s) EXCEPT !.ctl = Ret(VMacExp([Stamp(v, c.site) EXCEPT !.q = FALSE]))]     \* stamp, shallowUnquote
          ELSE IF IsMark(v)
          THEN IF v.n - 1 <= 0
               THEN \* the mark reached its target: reuse the frame for the next iteration
@@ -818,7 +828,10 @@ Unwind(s) ==
     [] OTHER -> [s EXCEPT !.k = Pop(@)]
 DoPanic(s) ==
   LET s1 == Unwind(s) IN
-  [s1 EXCEPT !.neid = @ + 1, !.ctl = Ret([V("err", s1.neid + 1, "internal-panic", "", TRUE, Msg) EXCEPT !.i = 0])]
+  \* (the error is created by the recovering eval: location of that eval's environment, stack as left by the unwinding)
+  LET env == Top(s.k).env IN
+  [s1 EXCEPT !.neid = @ + 1, !.estk = Append(@, StackCopy(s1)),
+             !.ctl = Ret([V("err", s1.neid + 1, "internal-panic", "", TRUE, Msg) EXCEPT !.i = s1.envs[env].loc])]
 
 \* ---------------------------------------------------------------- Next
 Result(s) == [id |-> s.prog.id, results |-> s.results]
